@@ -244,6 +244,9 @@ PARAM_CLS = {
         container(container(COMP)),
     (PKG + ".source_finder.estimate_parinfo_image", "wcshelper"): WCSH,
     (PKG + ".source_finder.find_islands", "wcs"): WCSH,
+    # offsets of the island's cut-out inside the image: (row, column)
+    (PKG + ".models.PixelIsland.calc_bounding_box", "offsets"):
+        AV(num="obj", elts=(ROW0, COL0)),
     (PKG + ".source_finder.find_islands", "region"): REGION,
     (PKG + ".MIMAS.mask_plane", "region"): REGION,
     (PKG + ".MIMAS.mask_plane", "wcs"): AV(num="obj", cls="astropy.WCS"),
